@@ -3,7 +3,9 @@ from .shapes import AUTOMATA, GRAMMARS, TRANSDUCERS
 
 
 def grammar_weights(ctx, sk, prefix_offset=0):
-    return [ctx.D.var(prefix_offset + k, positive=(k in sk.always)) for k in range(sk.K)]
+    """free rule weights; the job may declare some of them numeric constants (params["const"] = {index: number})"""
+    const = {int(k): v for k, v in (ctx.P.get("const") or {}).items()}
+    return [ctx.D.const(const[k]) if k in const else ctx.D.var(prefix_offset + k, positive=(k in sk.always)) for k in range(sk.K)]
 
 
 def make_cfg(ctx, sk, ws, perm=None, rename=None, R=None, wmap=None):
